@@ -2,11 +2,12 @@ SPECIFICATION FairSpec
 CONSTANTS
   Inst = {1, 2}
   MaxSteps = 2
-  WantSets = {{}, {"p0", "rp"}}
-  Txs = {"A"}
+  WantSets = {{}, {"p0"}}
+  Txs = {"W"}
   AllowCancel = TRUE
   DevNoCopy = FALSE
   DevDirtyPool = FALSE
   DevSharedAbort = FALSE
+  DevSharedCtx = FALSE
 PROPERTIES CancelLive
 CHECK_DEADLOCK FALSE
